@@ -163,26 +163,59 @@ pub fn strip_colors(input: &str) -> Result<String> {
 }
 
 pub fn strip_colors_bytes(input: &[u8]) -> Result<Vec<u8>> {
-    let mut stripper = AnsiStripper(Vec::with_capacity(input.len()));
-    let mut parser = vte::Parser::new();
+    let mut state = AnsiState::Text;
+    let mut stripped = Vec::with_capacity(input.len());
     for byte in input {
-        parser.advance(&mut stripper, *byte);
+        state = state.next(*byte, &mut stripped);
     }
-    Ok(stripper.0)
+    Ok(stripped)
 }
 
-/// Collects everything that is not part of an ANSI escape sequence: printable
-/// characters and control characters (tabs, carriage returns, ..), which are
-/// no escape sequences and must not get lost.
-struct AnsiStripper(Vec<u8>);
+/// Where in an ANSI escape sequence (ECMA-48, 7-bit forms) a byte stream is.
+/// Everything that is not part of a sequence is kept byte for byte - tabs,
+/// carriage returns and bytes that are not valid UTF-8 included.
+#[derive(Clone, Copy)]
+enum AnsiState {
+    /// outside of any sequence
+    Text,
+    /// after ESC
+    Escape,
+    /// after ESC and intermediate bytes (e.g. `ESC ( B`)
+    EscapeIntermediate,
+    /// within `ESC [ parameters.. final` (CSI)
+    ControlSequence,
+    /// within `ESC ] .. BEL` or `.. ESC \` (OSC) and the like (DCS, SOS, PM, APC)
+    ControlString,
+}
 
-impl vte::Perform for AnsiStripper {
-    fn print(&mut self, c: char) {
-        self.0.extend_from_slice(c.encode_utf8(&mut [0; 4]).as_bytes());
-    }
-
-    fn execute(&mut self, byte: u8) {
-        self.0.push(byte);
+impl AnsiState {
+    fn next(self, byte: u8, text: &mut Vec<u8>) -> Self {
+        match (self, byte) {
+            (Self::Text, 0x1b) => Self::Escape,
+            (Self::Text, _) => {
+                text.push(byte);
+                Self::Text
+            }
+            (Self::Escape, b'[') => Self::ControlSequence,
+            (Self::Escape, b']' | b'P' | b'X' | b'^' | b'_') => Self::ControlString,
+            (Self::Escape, 0x20..=0x2f) => Self::EscapeIntermediate,
+            (Self::Escape | Self::EscapeIntermediate | Self::ControlSequence, 0x1b) => Self::Escape,
+            // the final byte of a sequence without parameters (`ESC c`, `ESC ( B`, `ESC \`, ..)
+            (Self::Escape, _) => Self::Text,
+            (Self::EscapeIntermediate, 0x20..=0x2f) => Self::EscapeIntermediate,
+            (Self::EscapeIntermediate, _) => Self::Text,
+            (Self::ControlSequence, 0x40..=0x7e) => Self::Text,
+            // control characters within a control sequence take effect as usual
+            (Self::ControlSequence, 0x00..=0x1f) => {
+                text.push(byte);
+                Self::ControlSequence
+            }
+            (Self::ControlSequence, _) => Self::ControlSequence,
+            (Self::ControlString, 0x07) => Self::Text,
+            // ESC ends the string: `ESC \\` (ST) is itself a sequence of two bytes
+            (Self::ControlString, 0x1b) => Self::Escape,
+            (Self::ControlString, _) => Self::ControlString,
+        }
     }
 }
 
